@@ -108,8 +108,9 @@ Lemma peer_positions k : (k < n)%nat -> sg_peer (hdr p k) = true ->
     sg_consdir a = false /\ sg_consdir b = true /\ sg_kind a = KIntra /\ sg_kind b = KIntra /\
     (js k = 0 \/ js k = 1)%nat.
 Proof.
-  intros Hk P. destruct (peer_shape p Hs (js k) (js_lt p Hs k Hk) P) as (a & b & E & R).
-  exists a, b. split; [assumption|]. repeat (destruct R as [? R]). repeat split; try assumption.
+  intros Hk P. destruct (peer_shape p Hs (js k) (js_lt p Hs k Hk) P)
+    as (a & b & E & Pa & Pb & Ca & Cb & Ka & Kb).
+  exists a, b. repeat split; try assumption.
   pose proof (js_lt p Hs k Hk) as J. rewrite E in J. cbn [length] in J. lia.
 Qed.
 
